@@ -1455,6 +1455,23 @@ def np_nonzero(a):
     return a.nonzero()
 
 
+def np_argsort(a, axis=-1, kind=None, **kw):
+    """indices that sort a 1-D sequence of integers (symbolic ones are decided by concretisation); always stable"""
+    if kw:
+        raise Unsupported(f"argsort({sorted(kw)})")
+    vals = list(a.a.ravel()) if isinstance(a, SA) else list(a)
+    keys = []
+    for x in vals:
+        if isinstance(x, (DT, TD)):
+            x = x.sec
+        if is_sym(x):
+            if not getattr(x, "isint", False):
+                raise Unsupported("argsort of symbolic reals")
+            x = x.__index__()
+        keys.append(x)
+    return rnp.array(sorted(range(len(keys)), key=lambda i: keys[i]), dtype=int)
+
+
 def _elementwise2(f):
     def g(a, b, out=None):
         aa, bb = _wrap(a), _wrap(b)
@@ -1618,6 +1635,7 @@ def build_module():
     m.rint = m.round = np_around
     m.sign = _elementwise1(_sign1)
     m.cumsum = np_cumsum
+    m.argsort = np_argsort
     m.count_nonzero = np_count_nonzero
     m.subtract = lambda a, b: a - b
     m.divide = m.true_divide = lambda a, b: a / b
